@@ -34,7 +34,11 @@ def main():
                     core.CONTEXT[ck] = rc[ck]
             rc = {k: x for k, x in rc.items() if k not in core.CONTEXT_KEYS}
         with core.module_settings(core.CONTEXT.get('module')):
-            vs = mod.replay(rc)
+            if isinstance(rc, dict) and rc.get('what') == '__derive__':
+                from mc import alphabets as _AB
+                vs = _AB.replay_derive(dict(rc, prov=core.CONTEXT.get('prov')))
+            else:
+                vs = mod.replay(rc)
         same = [v for v in vs if v['clause'] == rec['clause']]
         for v in vs:
             print('replay: clause=%s observed=%s expected=%s detail=%s' % (
